@@ -56,7 +56,8 @@ SPEC = {
             "x lengths 1, 8, max-1, max x both families with non-covering noise; /0 and host routes; empty set), "
             "structured random (0..20 VRPs related to a random route: covering/equal/more specific/sibling/other "
             "family/unrelated, max length around the route's length, duplicates, request batches with decoys, host "
-            "bits and bare AS numbers on the HTTP endpoints), 2 large sets, 17 malformed HTTP requests; prefix: all "
+            "bits and bare AS numbers on the HTTP endpoints), 2 large sets, 17 malformed HTTP requests (must be answered 400), "
+            "23 malformed plain / JSON request lists (the reader must fail); prefix: all "
             "ordered pairs of prefixes of length <= 3 of both families, boundary lengths (0, 1, 31, 32 / 0, 1, 32, 33, "
             "64, 96, 97, 127, 128) with single flipped bits, same bits in the other family, random truncations / flips, "
             "prefix texts with every length 0..max+2, host bits, over-long lengths; distinct = distinct Coq case term; "
